@@ -33,7 +33,8 @@ def cases(tier, seed):
             depth_words = r.choice([12, 24, 40, 6, 20])      # not a power of two
         c = dict(bypass=bypass, ratio=ratio, dw=dw, depth_words=depth_words,
                  # regions packed back to back (base a multiple of the depth) as well as arbitrary bases
-                 base_words=r.choice([0, 16, 1000, depth_words, 2 * depth_words, 3 * depth_words, 5 * depth_words]),
+                 base_words=r.choice([0, 16, 1000, depth_words, 2 * depth_words, 3 * depth_words, 5 * depth_words,
+                                      (1 << 24) + 7 * depth_words, (1 << 25) - depth_words]),       # incl. regions high up in a large memory
                  schedule=SCHEDULES[k % len(SCHEDULES)], factor=r.randint(5, 14) if tier == "quick" else r.randint(5, 50),
                  cmd_ready_prob=r.choice([1.0, 0.7, 0.4]), extra_lat=r.choice([(0, 0), (0, 8), (0, 30)]),
                  long_stall=r.choice([0, 0, 0.01]), pre=r.choice([16, 16, 4]), post=r.choice([16, 16, 4]), seed="C13/%d/%d" % (seed, k))
@@ -122,7 +123,7 @@ def run_case(c):
     dw, ratio = c["dw"], c["ratio"]
     pdw = dw * ratio
     pb = pdw // 8
-    aw = 14
+    aw = 26 if c["base_words"] >= (1 << 20) else 14
 
     class DUT(Module):
         def __init__(self):
